@@ -134,7 +134,7 @@ int main(int argc, char** argv) {
       WriteAll(s.depfile, DepfileText(s));
     }
     if (!bad) {
-      if (s.msvc) for (auto& h : s.hidden) printf("Note: including file: %s\n", h.c_str());
+      if (s.msvc) for (auto& h : s.hidden) printf("Note: including file: %s\n", s.Spelled(h).c_str());
       fwrite(s.print.data(), 1, s.print.size(), stdout);
     }
     rc = bad ? 1 : 0;
